@@ -50,7 +50,7 @@ Qed.
 Lemma inv_init ca cb : cfg_ok ca -> cfg_ok cb -> Inv (init ca cb).
 Proof.
   intros Ha Hb s. split.
-  - destruct s; constructor; try apply per_id_init; cbn; try reflexivity; intros _; lia.
+  - destruct s; constructor; try apply per_id_init; cbn; try reflexivity; intros _; (lia || reflexivity).
   - destruct s; constructor; cbn [init ep epA epB new_endpoint streams backlog cfg get];
       intros; try discriminate; try easy; try constructor.
 Qed.
@@ -165,12 +165,17 @@ Ltac fwd :=
          | H : ?P -> _ |- _ =>
            match type of P with
            | Prop => let HP := fresh in
-                     assert (HP : P) by (solve [eauto | congruence | discriminate | (split; congruence)]);
+                     assert (HP : P) by (solve [eauto | congruence | discriminate | (split; congruence)
+                                           | (repeat match goal with E : ph _ = _ |- _ => rewrite E end; reflexivity)]);
                      specialize (H HP); clear HP
            end
          end;
   repeat match goal with H : _ /\ _ |- _ => destruct H end.
-Ltac sl_fin := fwd; try discriminate; try congruence; try (split; congruence); try (repeat split; congruence); eauto.
+Ltac ph_contra := unfold is_user in *; repeat match goal with E : ph _ = _ |- _ => rewrite E in * end; cbn [pre_user] in *; discriminate.
+Ltac sl_fin := try ph_contra; fwd; try discriminate; try congruence; try (split; congruence); try (repeat split; congruence); eauto.
+
+Lemma is_user_ph x : is_user x = true -> ph x = PUser.
+Proof. unfold is_user. destruct (ph x); congruence. Qed.
 
 Lemma get_streams_local s e j x : local_inv s e -> get j (streams e) = Some x -> sl_ok s j x.
 Proof. intros [H _ _ _]; eauto. Qed.
@@ -179,4 +184,99 @@ Lemma not_in_backlog s e j x :
   local_inv s e -> get j (streams e) = Some x -> ph x <> PBacklog -> ~ In j (backlog e).
 Proof.
   intros [_ Hb _ _] G P Hin. destruct (Hb _ Hin) as (x' & G' & P'). congruence.
+Qed.
+
+(* ---- a frame lemma up to the fields each role reads ---- *)
+Definition sv_le (a b : view) : Prop :=
+  v_sw a = v_sw b /\ v_est a = v_est b /\ v_rc a = v_rc b /\ v_rcw a = v_rcw b /\
+  (v_pre b = true -> v_pre a = true) /\ (v_wgone a = true -> v_wgone b = true) /\
+  (v_posted a = true -> v_posted b = true).
+Definition rv_eq (a b : view) : Prop :=
+  v_est a = v_est b /\ v_rc a = v_rc b /\ v_rcw a = v_rcw b /\ v_rt a = v_rt b.
+Definition orel (R : view -> view -> Prop) (o o' : option view) : Prop :=
+  match o, o' with
+  | None, None => True
+  | Some a, Some b => R a b
+  | _, _ => False
+  end.
+
+Lemma orel_refl_sv o : orel sv_le o o.
+Proof. destruct o; cbn; unfold sv_le; auto 10. Qed.
+Lemma orel_refl_rv o : orel rv_eq o o.
+Proof. destruct o; cbn; unfold rv_eq; auto. Qed.
+Lemma orel_eq_sv o o' : o' = o -> orel sv_le o o'.
+Proof. intros ->. apply orel_refl_sv. Qed.
+Lemma orel_eq_rv o o' : o' = o -> orel rv_eq o o'.
+Proof. intros ->. apply orel_refl_rv. Qed.
+
+Ltac inj_some :=
+  repeat match goal with
+         | H : Some _ = Some _ |- _ => injection H as <-
+         | H : None = Some _ |- _ => discriminate H
+         | H : Some _ = None |- _ => discriminate H
+         end.
+
+Ltac spec_some :=
+  repeat match goal with
+         | H : forall y : view, Some ?a = Some y -> _ |- _ => specialize (H a eq_refl)
+         | H : forall y : view, None = Some y -> _ |- _ => clear H
+         | H : forall y : view, ?P -> Some ?a = Some y -> _ |- _ => specialize (fun p => H a p eq_refl)
+         | H : forall y : view, ?P -> None = Some y -> _ |- _ => clear H
+         end.
+
+(* modus ponens with premises literally in the context *)
+Ltac fwd_exact :=
+  repeat match goal with
+         | H : ?P -> _, Hp : ?P |- _ => specialize (H Hp)
+         | H : ?a = ?a -> _ |- _ => specialize (H eq_refl)
+         end;
+  repeat match goal with H : _ /\ _ |- _ => destruct H end.
+
+Lemma per_id_frame2 S eS eR w w' eS' eR' w1 w1' i :
+  per_id S eS eR w w' i ->
+  orel sv_le (vw eS i) (vw eS' i) -> orel rv_eq (vw eR i) (vw eR' i) ->
+  get i (incs eS') = get i (incs eS) -> get i (wcs eS') = get i (wcs eS) ->
+  get i (cls eS') = get i (cls eS) -> get i (incs eR') = get i (incs eR) ->
+  wp i w1 = wp i w -> wp i w1' = wp i w' ->
+  largestIn eS <= largestIn eS' ->
+  final_lg (largestIn eR) w <= final_lg (largestIn eR') w1 ->
+  cfg eR' = cfg eR ->
+  per_id S eS' eR' w1 w1' i.
+Proof.
+  intros [] HS HR H1 H2 H3 H4 Hw Hw' Hl Hf Hc.
+  unfold wp in Hw, Hw'.
+  injection Hw as Ha Hb Hc' Hd He Hf' Hg Hh Hi Hj Hk Hl'.
+  injection Hw' as Ha' Hb' Hc'' Hd' He' Hf'' Hg' Hh' Hi' Hj' Hk' Hl''.
+  destruct (vw eS i) as [a|] eqn:EA, (vw eS' i) as [b|] eqn:EB; cbn in HS; try contradiction;
+  destruct (vw eR i) as [c|] eqn:EC, (vw eR' i) as [d|] eqn:ED; cbn in HR; try contradiction;
+  try destruct HS as (s1 & s2 & s3 & s4 & s5 & s6 & s7);
+  try destruct HR as (r1 & r2 & r3 & r4);
+  (constructor; unfold noacc, getN, closedp, wgone, rterms, swterm in *;
+   rewrite ?EB, ?ED, ?H1, ?H2, ?H3, ?H4, ?Hc,
+           ?Ha, ?Hb, ?Hc', ?Hd, ?He, ?Hf', ?Hg, ?Hh, ?Hi, ?Hj, ?Hk, ?Hl', ?He', ?Hi';
+   try assumption);
+  intros; inj_some;
+  try match goal with Hp : v_pre _ = true |- _ => apply s5 in Hp end;
+  rewrite <- ?s1, <- ?s2, <- ?s3, <- ?s4, <- ?r1, <- ?r2, <- ?r3, <- ?r4 in *.
+  all: try match goal with |- _ <= final_lg _ _ /\ _ <> 0 =>
+         match goal with Hk : mine _ _ = true -> _ -> _ /\ _ |- _ =>
+           let A := fresh in let B := fresh in
+           destruct Hk as [A B]; [assumption| |split; [lia|assumption]] end end.
+  all: try match goal with |- _ <= largestIn _ /\ _ <> 0 =>
+         match goal with Hk : mine _ _ = false -> _ -> _ /\ _ |- _ =>
+           let A := fresh in let B := fresh in
+           destruct Hk as [A B]; [assumption| |split; [lia|assumption]] end end.
+  all: try (match goal with H : _ \/ _ |- _ \/ _ => destruct H; [left; congruence|right; assumption] end).
+  all: try (match goal with H : _ \/ _ \/ _ |- _ \/ _ \/ _ => destruct H as [H|H]; [left; congruence|right; assumption] end).
+  all: eauto.
+  all: spec_some; fwd_exact; spec_some; fwd_exact;
+       repeat split; intros; inj_some;
+       rewrite <- ?s1, <- ?s2, <- ?s3, <- ?s4, <- ?r1, <- ?r2, <- ?r3, <- ?r4 in *;
+       eauto; try congruence.
+  all: try match goal with
+           | H : _ \/ _ \/ _ \/ (exists y, Some ?b = Some y /\ _) |- _ =>
+             destruct H as [H|[H|[H|(y0 & Hy & Hy')]]]; inj_some;
+             match goal with Ho : _ -> has_accept _ _ = true |- _ => apply Ho end; eauto;
+             right; right; right; eexists; split; [reflexivity|congruence]
+           end.
 Qed.
